@@ -1106,6 +1106,9 @@ fn guided_stage(prop: &dyn Property, root: &Path, run_dir: &Path, seed: u64, act
         .current_dir(&dir)
         .arg("corpus")
         .arg(format!("-runs={runs}"))
+        // campaign budget: whichever of the two is reached first ends a worker; the evidence file
+        // records the executions actually made
+        .arg(format!("-max_total_time={}", env_u64("VERIF_GUIDED_SECONDS", 240)))
         .arg(format!("-seed={}", (seed % 0xffff_fffe) + 1))
         .arg(format!("-max_len={}", (2 * prop.max_words()).clamp(64, 16384)))
         .arg("-len_control=0")
@@ -1248,7 +1251,7 @@ fn guided_stage(prop: &dyn Property, root: &Path, run_dir: &Path, seed: u64, act
     g.report = serde_json::json!({
         "ran": true, "engine": "libFuzzer (cargo-fuzz), target guided/fuzz_targets/prop_words.rs: input bytes -> choice words -> the property's own generator and oracle",
         "executions": executed, "edge_coverage": cov, "corpus_files": corpus_files, "saved_inputs": names.len(), "discarded_as_load_noise": discarded,
-        "workers": workers, "runs_per_worker": runs, "wall_s": wall, "seed_corpus": "192 choice vectors from the random stage's strategy",
+        "workers": workers, "runs_per_worker": runs, "max_total_time_s": env_u64("VERIF_GUIDED_SECONDS", 240), "wall_s": wall, "seed_corpus": "192 choice vectors from the random stage's strategy",
     });
     g
 }
